@@ -4,7 +4,7 @@
 
    A case is one link-like construct inside a paragraph, plus (for reference forms) its definition:
      form   "inline" [t](d "x")   "image" ![t](d "x")   "full" [t][r]   "collapsed" [r][]   "shortcut" [r]   "auto" <d>
-     dest   "plain" | "parens" (balanced parentheses) | "escparen" (an escaped, unbalanced parenthesis) | "space" (needs <...>) |
+     dest   "plain" | "parens" (balanced parentheses) | "escparen" (an escaped, unbalanced parenthesis) | "revparen" (as many ")" as "(" but a ")" first: a\)b\(c) | "space" (needs <...>) |
             "empty" | "amp" (query with &) | "email" (autolinks only)
      title  "none" | "dq" "t"  | "sq" 't' | "par" (t) | "dqesc" "say \"hi\"" | "sqdq" 'it"s' | "bs" "a\\b" (an escaped backslash)
      samedef  an inline link whose destination and title equal a definition of the document (flowmark then writes it as a reference)
@@ -29,12 +29,12 @@ IsRef(x) == x.form \in {"full", "collapsed", "shortcut"} \/ x.samedef
 \* content kind of a title: the delimiters are spelling, the content is what must survive
 Content(t) == CASE t \in {"dq", "sq", "par"} -> "plain" [] t \in {"dqesc", "sqdq"} -> "hasdq" [] t = "dqend" -> "enddq" [] t = "bs" -> "hasbs" [] OTHER -> "none"
 \* a link is written as a reference iff a definition of the document has the same destination (as written) and the same normalised title
-UsesLabel(x) == /\ IsRef(x) /\ x.dest \notin {"space", "escparen"}          \* '<a b>' / 'a\)b' as written differ from the parsed destination
+UsesLabel(x) == /\ IsRef(x) /\ x.dest \notin {"space", "escparen", "revparen"}          \* '<a b>' / 'a\)b' as written differ from the parsed destination
                 /\ (Fixed \/ x.title \in {"none", "dq", "dqesc"})          \* before D51 only titles written with plain double quotes matched
 \* destination inside the parentheses of a link or image: angle brackets for whitespace, and (D52) for an unbalanced parenthesis
-DestPiece(d) == [k |-> d, angle |-> d = "space" \/ (Fixed /\ d = "escparen"), esc |-> FALSE]
+DestPiece(d) == [k |-> d, angle |-> d = "space" \/ (Fixed /\ d \in {"escparen", "revparen"}), esc |-> FALSE]
 \* destination of a definition line: kept as written
-DefDestPiece(d) == [k |-> d, angle |-> d = "space", esc |-> d = "escparen"]
+DefDestPiece(d) == [k |-> d, angle |-> d = "space", esc |-> d \in {"escparen", "revparen"}]
 TitlePiece(t) == [k |-> IF ~Fixed /\ t = "dqend" THEN "lostquote" ELSE Content(t), q |-> "dq"]
 \* title of a definition line: converted from its spelling (before D51: re-quoted by content rules, which wrapped '..' and (..) once more
 \* and escaped the escapes of "..")
@@ -58,7 +58,7 @@ Next == Open \/ Text \/ Label \/ Dest \/ Title \/ Close \/ Def
 Spec == Init /\ [][Next]_vars
 Done == pc = "done"
 
-DestOK(d) == (d.k = "space" => d.angle) /\ (d.k = "escparen" => (d.esc \/ d.angle))
+DestOK(d) == (d.k = "space" => d.angle) /\ (d.k \in {"escparen", "revparen"} => (d.esc \/ d.angle))
 TitleOK(t) == t.q = "dq"
 ReadableOn(o) == \A j \in 1..Len(o) : /\ (o[j].p \in {"dest", "defdest"} => DestOK(o[j].d))
                                       /\ (o[j].p \in {"title", "deftitle"} => TitleOK(o[j].t))
